@@ -117,7 +117,9 @@ func genBodyS(r *RNG, groups []string, b *asaDev) string {
 		}
 		return s
 	}
-	if proto != "ip" && r.Chance(70) {
+	if proto != "ip" && r.Chance(10) {
+		s += " " + Pick(r, []string{"range 22 25", "range 25 80", "range 80 443", "range 53 80"})
+	} else if proto != "ip" && r.Chance(70) {
 		s += fmt.Sprintf(" eq %d", Pick(r, []int{22, 25, 53, 80, 443}))
 	}
 	if r.Chance(8) {
@@ -658,6 +660,31 @@ func respell(r *RNG, text string, target bool) string {
 					w[j] = n
 				}
 			}
+		}
+		for j := 2; j+2 < len(w); j++ {
+			if w[j] == "range" {
+				for k := j + 1; k <= j+2; k++ {
+					if n, ok := portNumbers[w[k]]; ok && w[1] == "tcp" {
+						w[k] = n
+					}
+				}
+			}
+		}
+		if target && r.Chance(40) {
+			// spellings a raw file may use: `A 255.255.255.255` for `host A`, `0.0.0.0 0.0.0.0` for `any4`
+			var o []string
+			for j := 0; j < len(w); j++ {
+				switch {
+				case w[j] == "host" && j+1 < len(w) && j >= 2 && w[j-1] != "log":
+					o = append(o, w[j+1], "255.255.255.255")
+					j++
+				case w[j] == "any4" && r.Chance(50):
+					o = append(o, "0.0.0.0", "0.0.0.0")
+				default:
+					o = append(o, w[j])
+				}
+			}
+			w = o
 		}
 		if target && r.Chance(50) {
 			if n, ok := protoByName[w[1]]; ok {
